@@ -37,6 +37,15 @@ def gen_cases(tier, seed):
             yield {"prop": PROP, "id": "o%d" % n, "batch": "owner_end", "gen": {"family": "ownerend", "spec": spec, "unordered": False},
                    "envs": modelcheck.gen_envs(rng, 2)}
             n += 1
+    # closures that live in an imported module (always loaded from its bytecode file): two import forms x sampled constants,
+    # more environments per program than elsewhere, because here the artefact environments bear on closure semantics
+    for r in range(24 if tier == "quick" else 240):
+        rng = Rng(derive(seed, PROP, "libclosures", r))
+        spec = gens.libclosures.generate(rng)
+        spec["form"] = gens.libclosures.FORMS[r % 2]
+        yield {"prop": PROP, "id": "l%d" % n, "batch": "lib_closures", "gen": {"family": "libclosures", "spec": spec, "unordered": False},
+               "envs": modelcheck.gen_envs(rng, 6)}
+        n += 1
     total = 4000 if tier == "quick" else 48000
     for i in range(total):
         rng = Rng(derive(seed, PROP, "hist", i))
